@@ -159,7 +159,49 @@ func scenario(c srv.Cfg) *engine.Scenario {
 	return sc
 }
 
+// keyListConfigs: configurations that stress how a service's key list is built from the
+// configuration (same secret under several ciphers, duplicated (cipher, secret) pairs in any
+// order, many keys) - the configuration-level part of C01.
+func keyListConfigs() []srv.Cfg {
+	ln := []srv.Ln{{Type: "tcp", Addr: "127.0.0.1:9000"}, {Type: "udp", Addr: "127.0.0.1:9000"}}
+	var out []srv.Cfg
+	lists := [][]srv.Key{keys(1, 4), keys(4, 1), keys(0, 2, 1, 4, 3), keys(3, 4, 2, 1, 0), keys(2, 0), keys(0, 1, 2, 3, 4)}
+	for _, l := range lists {
+		out = append(out, srv.Cfg{Services: []srv.Svc{{Listeners: ln, Keys: l}}})
+		var lg []srv.Legacy
+		for _, k := range l {
+			lg = append(lg, srv.Legacy{Key: k, Port: 9005})
+		}
+		out = append(out, srv.Cfg{Legacy: lg})
+	}
+	// many keys: the universe keys spread among 40 fillers
+	var many []srv.Key
+	for i := 0; i < 40; i++ {
+		many = append(many, srv.Key{ID: fmt.Sprintf("f%d", i), Cipher: universe[i%5].Cipher, Secret: fmt.Sprintf("filler-%d", i)})
+		if i%9 == 4 {
+			many = append(many, universe[(i/9)%5])
+		}
+	}
+	out = append(out, srv.Cfg{Services: []srv.Svc{{Listeners: ln, Keys: many}}})
+	return out
+}
+
 func init() {
+	hk.Register("C01main", func(ctx *engine.Ctx) {
+		for i, c := range keyListConfigs() {
+			if ctx.Mine(int64(i)) {
+				ctx.RunCase("config-keylist", "E", scenario(c), c, nil)
+			}
+		}
+	})
+	hk.Replayers["C01main"] = func(ctx *engine.Ctx, rp engine.Replay) []*engine.Finding {
+		var c srv.Cfg
+		if err := json.Unmarshal(rp.Input, &c); err != nil {
+			return []*engine.Finding{{Sig: "BROKEN:bad-input", Msg: err.Error()}}
+		}
+		rp.Choices = nil
+		return engine.ReplayCase("config-keylist", scenario(c), rp)
+	}
 	hk.Register("C09", func(ctx *engine.Ctx) {
 		cfgs := Configs()
 		step := 3
